@@ -95,12 +95,12 @@ PROPS = {
         assumptions=["map keys are unique (basicnode rejects duplicates at assembly)", "string slicing by character uses the Go UTF-8 decoding rules modelled in Model/Utf8.lean, checked differentially incl. invalid UTF-8"],
     ),
     "C11": dict(
-        tie=["Ucan.Props.Tie.PolicyMatch", "Ucan.Props.Tie.PolicyAcc"],
+        tie=["Ucan.Props.Tie.PolicyMatch", "Ucan.Props.Tie.PolicyAcc", "Ucan.Props.Tie.PolicyOrder"],
         props_module="Ucan.Props.C11",
         streams=["policy"],
         technique="Lean 4 proofs over a mutual-recursive model of matchStatement: classical semantics under a resolves predicate, invariance under an inductively defined operand-permutation relation (loops shown equal to folds of commutative-associative four-valued operations), monotonicity, full⇒partial, concatenation; tied to the code by an exhaustive depth-≤2 statement × data differential run plus random permuted policies",
         level_text="C11_classical (every selector resolves ⇒ Match = conjunction of classical truth values; like = glob language; ordering only between two ints or two finite floats), C11_perm_operands / C11_perm_and / C11_perm_or / C11_perm_elements (order independence for any nesting), C11_and_monotone / C11_all_monotone, C11_full_implies_partial, C11_append, C11_required_missing / C11_optional_missing — all for every policy and every IPLD value. Go's Match/PartialMatch are compared with the model on every depth-≤2 statement family × 16 data trees (with the negated statement, to observe the four-valued result) and on random depth-≤4 policies in original and permuted form.",
-        level_note="Trusted: Lean kernel; Policy.Match / PartialMatch and the fold step `accumulate` of and/or/all/any are regenerated from the source and proved equal to the model (Tie/PolicyMatch, Tie/PolicyAcc, go2lean trusted); matchStatement itself (type switches over an interface, go-ipld-prime iterators) is rendered by hand in Model/Policy.lean, evaluating children eagerly (sound because children are pure once integers fit int64 — C09), with DeepEqual and float comparison modelled on IEEE bit patterns in Model/Node.lean — that part is checked differentially, not proved.",
+        level_note="Trusted: Lean kernel; Policy.Match / PartialMatch, the fold step `accumulate` of and/or/all/any and the ordering test `isOrdered` behind > >= < <= (node API: Kind, AsInt with its error beyond int64, AsFloat; cmp.Compare and math.IsInf on the float bits) are regenerated from the source and proved equal to the model (Tie/PolicyMatch, Tie/PolicyAcc, Tie/PolicyOrder, go2lean trusted); matchStatement itself (type switches over an interface, go-ipld-prime iterators) is rendered by hand in Model/Policy.lean, evaluating children eagerly (sound because children are pure once integers fit int64 — C09), with DeepEqual and float comparison modelled on IEEE bit patterns in Model/Node.lean — that part is checked differentially, not proved.",
         assumptions=["integers in policies and data fit int64 (otherwise must.Int/DeepEqual panic: C09)", "or [] is true, as the UCAN specification and the in-tree tests require"],
     ),
     "C01": dict(
